@@ -319,7 +319,7 @@ func TestDeterministicAcrossConfigurations(t *testing.T) {
 			n = &shape.Node{Op: "sphere", P: []float64{float64(np), pitch}} // stands for the description only
 			rname = rapid.SampledFrom([]string{"mcu", "mcu", "mco"}).Draw(t, "many-renderer")
 			sink = rapid.SampledFrom([]string{"triangles", "stl", "3mf"}).Draw(t, "sink")
-			cells = rapid.IntRange(60, ev.Pick(200, 400)).Draw(t, "fine-cells")
+			cells = rapid.IntRange(60, ev.Pick(200, 300)).Draw(t, "fine-cells")
 			if how == "revolve" {
 				cells = rapid.IntRange(40, ev.Pick(90, 160)).Draw(t, "fine-cells-revolve")
 			}
@@ -329,9 +329,9 @@ func TestDeterministicAcrossConfigurations(t *testing.T) {
 			}
 			if rname == "mco" && how != "plate" {
 				// deep octrees (9..10 levels): the strip is sparse, most cubes are pruned
-				cells = rapid.IntRange(100, ev.Pick(300, 600)).Draw(t, "deep-octree-cells")
+				cells = rapid.IntRange(100, ev.Pick(300, 400)).Draw(t, "deep-octree-cells")
 				if how == "revolve" {
-					cells = rapid.IntRange(100, ev.Pick(200, 300)).Draw(t, "deep-octree-cells-revolve")
+					cells = rapid.IntRange(100, ev.Pick(200, 240)).Draw(t, "deep-octree-cells-revolve")
 				}
 			}
 			manyDesc = fmt.Sprintf("%s of a 2D union of %d parts (round=%v, pitch %v, cached profile=%v)", how, 2*np, round, pitch, cached)
